@@ -550,6 +550,7 @@ func c01Round(r *Run, net *c01Net, n, round int, rng *rand.Rand) bool {
 
 func runC01(r *Run) {
 	c01ReusedReply(r)
+	c01MethodSpelling(r)
 	sizes := []int{1, 2, 8, r.Scale(16, 64)}
 	perMode := r.Scale(0, 50000) // calls per topology and transport kind (quick: cycles below)
 	cycles := r.Scale(8, 0)
